@@ -913,19 +913,19 @@ def replay_landscape_multi(kind):
         bad = []
         for shape in ((16, 17, 15), (16, 16, 16)):
             tmpl = _template(shape)
-            for K in (2, 3, 5):
-                model = Model(tmpl, rotations=Rotation.from_rotvec([[0.0, 0.0, 0.0]] + [[0.4 * k, 0.0, 0.2] for k in range(1, K)]))
-                for d in ((1, 0, -1), (0, 2, 1)):
+            for K in (1, 2, 3, 5):
+                model = Model(tmpl, rotations=Rotation.from_rotvec([[0.0, 0.0, 0.0]] + [[0.4 * k, 0.0, 0.2] for k in range(1, K)])) if K > 1 else Model(tmpl)
+                for d, ms, up in (((1, 0, -1), (2.0, 2.5, 2.0), 4), ((0, 2, 1), (2.0, 2.5, 2.0), 4), ((2, -2, 1), (2.9, 2.9, 2.9), 2), ((-2, 1, 2), (2.3, 2.9, 3.4), 3)):
                     sub = ndi.shift(tmpl, d, order=1, mode="constant").astype(np.float32)
                     try:
-                        lds = np.asarray(model.landscape(sub, (2.0, 2.5, 2.0), upsample=4))
+                        lds = np.asarray(model.landscape(sub, ms, upsample=up))
                     except Exception as e:
                         bad.append({"K": K, "raised": repr(e)[:100]})
                         continue
-                    best = lds[0]  # the un-rotated candidate
-                    pk = (np.array(np.unravel_index(np.argmax(best), best.shape), dtype=float) - (np.array(best.shape) - 1) / 2) / 4
+                    best = lds[0] if K > 1 else lds  # the un-rotated candidate
+                    pk = (np.array(np.unravel_index(np.argmax(best), best.shape), dtype=float) - (np.array(best.shape) - 1) / 2) / up
                     if np.abs(pk - np.array(d)).max() > 0.26:
-                        bad.append({"shape": list(shape), "K": K, "d": list(d), "peak_of_candidate_0": pk.tolist()})
+                        bad.append({"shape": list(shape), "K": K, "d": list(d), "max_shifts": list(ms), "upsample": up, "peak_of_candidate_0": pk.tolist()})
         return len(bad) > 0, {"model": kind, "n": len(bad), "examples": bad[:4]}
 
     return run
@@ -963,7 +963,7 @@ def sec_landscape_upsampled(rec, kind="zncc", box=(6, 5, 7), axis=0, u=4, others
     ms = tuple(ms)
     names = {f"m{axis}"}
     tag = f"landscape-upsampled[{kind},box={box},axis={axis},u={u}{',K=' + str(K) if K > 1 else ''}]"
-    rpl = replay_planted(kind, tuple(s_ % 2 for s_ in box), landscape=True) if K == 1 else replay_landscape_multi(kind)
+    rpl = replay_landscape_multi(kind)
 
     def run():
         cap.clear()
